@@ -17,21 +17,33 @@ def run():
     interval = field_default(w, "EnrichmentWorkerConfig", "checkpoint_interval")
     delay = field_default(w, "EnrichmentWorkerConfig", "task_delay_ms")
     mut = re.sub(r"\s+", " ", strip_comments(read("src/memvid/mutation.rs")))
-    # the queue push at the end of put_internal: which number is pushed?
-    m = re.search(r"if needs_enrichment \{ let (\w+) = (\w+) as FrameId; self\.toc\.enrichment_queue\.push\(\1\);", mut)
+    # the queue push at the end of put_internal: which number is pushed?  Two shapes are known:
+    #   `let frame_id = parent_seq as FrameId;`   parent_seq = append_wal_entry(..)   -> the WAL sequence (code as found)
+    #   `let frame_id = assigned_frame_id;`       assigned_frame_id = next_frame_id() read BEFORE the append
+    #                                             -> the id the record gets at commit (fixes/C26.diff)
+    m = re.search(r"if needs_enrichment \{ let (\w+) = ([\w ]+?); self\.toc\.enrichment_queue\.push\(\1\);", mut)
     if not m:
-        raise TranslateError("put_internal: `if needs_enrichment { let frame_id = <x> as FrameId; self.toc.enrichment_queue.push(frame_id);` not found")
-    if m.group(2) != "parent_seq":
-        raise TranslateError(f"put_internal pushes `{m.group(2)}` on the enrichment queue, the model knows only `parent_seq` (the WAL sequence)")
-    if not re.search(r"let parent_seq = self\.append_wal_entry\(&parent_bytes\)\?;", mut):
-        raise TranslateError("put_internal: parent_seq is no longer the result of append_wal_entry")
+        raise TranslateError("put_internal: `if needs_enrichment { let frame_id = <x>; self.toc.enrichment_queue.push(frame_id);` not found")
+    app = re.search(r"let parent_seq = self\.append_wal_entry\(&parent_bytes\)\?;", mut)
+    if not app:
+        raise TranslateError("put_internal: `let parent_seq = self.append_wal_entry(&parent_bytes)?;` not found")
+    expr = m.group(2).strip()
+    if expr == "parent_seq as FrameId":
+        holds_seq = True
+    else:
+        d = re.search(r"let " + re.escape(expr) + r"\s*:\s*FrameId\s*=\s*self\.next_frame_id\(\);", mut)
+        if not re.fullmatch(r"\w+", expr) or not d or d.start() > app.start():
+            raise TranslateError(f"put_internal pushes `{expr}` on the enrichment queue: neither `parent_seq as FrameId` nor a "
+                                 "variable bound to `self.next_frame_id()` before the WAL append — the model knows only these two")
+        holds_seq = False
     n = re.search(r"let needs_enrichment = options\.instant_index && \(options\.enable_embedding \|\| is_skim_extraction\);", mut)
     if not n:
         raise TranslateError("put_internal: needs_enrichment is no longer instant_index && (enable_embedding || is_skim_extraction)")
     body = (f"def DEFAULT_CHECKPOINT_INTERVAL : Nat := {interval}\n"
             f"def DEFAULT_TASK_DELAY_MS : Nat := {delay}\n"
-            "/-- `put_internal` pushes `parent_seq as FrameId` (the WAL sequence of the frame record) -/\n"
-            "def QUEUE_HOLDS_WAL_SEQUENCE : Bool := true\n")
+            "/-- what `put_internal` pushes on the enrichment queue: `parent_seq as FrameId` (the WAL sequence of the\n"
+            "    frame record; true) or `next_frame_id()` read before the WAL append (the id the record gets; false) -/\n"
+            f"def QUEUE_HOLDS_WAL_SEQUENCE : Bool := {'true' if holds_seq else 'false'}\n")
     return emit("C41", body)
 
 main(run)
